@@ -47,8 +47,11 @@ type BedFile struct {
 	// but some other feat.Feature located on a bed.Chrom (the writer's second
 	// path): 1 = it also has a score and an orientation, 2 = it has neither
 	// (columns 5 and 6 are then written as 0 and "."). Only for M <= 6.
-	Generic int      `json:"generic,omitempty"`
-	Recs    []BedRec `json:"recs"`
+	Generic int `json:"generic,omitempty"`
+	// FirstM != 0: the writer is built for FirstM columns and its exported BedType field is set to M
+	// afterwards, before the first record is written (one writer object reused for another width)
+	FirstM int      `json:"first_m,omitempty"`
+	Recs   []BedRec `json:"recs"`
 }
 
 // genericFeat is a feature that is not one of the BED structs.
@@ -175,6 +178,9 @@ func GenBedFile(t *rapid.T, maxRecs int) BedFile {
 	if f.M <= 6 && rapid.IntRange(0, 2).Draw(t, "bed-generic") == 0 {
 		f.Generic = rapid.IntRange(1, 2).Draw(t, "bed-generic-kind")
 	}
+	if rapid.IntRange(0, 4).Draw(t, "bed-width-set-later") == 0 {
+		f.FirstM = rapid.SampledFrom(BedTypes).Draw(t, "bed-first-m")
+	}
 	n := rapid.IntRange(0, maxRecs).Draw(t, "nrecs")
 	for i := 0; i < n; i++ {
 		r := BedRec{
@@ -234,10 +240,15 @@ func (r BedRec) Value(n int) feat.Feature {
 // WriteLib writes the file with bed.Writer, checking byte counts.
 func (f BedFile) WriteLib() ([]byte, error) {
 	var buf bytes.Buffer
-	w, err := bed.NewWriter(&buf, f.M)
-	if err != nil {
-		return nil, fmt.Errorf("write-error: NewWriter(%d): %v", f.M, err)
+	first := f.M
+	if f.FirstM != 0 {
+		first = f.FirstM
 	}
+	w, err := bed.NewWriter(&buf, first)
+	if err != nil {
+		return nil, fmt.Errorf("write-error: NewWriter(%d): %v", first, err)
+	}
+	w.BedType = f.M
 	for i, r := range f.Recs {
 		before := buf.Len()
 		var v feat.Feature = r.Value(f.N)
